@@ -26,6 +26,9 @@ QUICK_EXTRA_PLACE = ["later", "same", "fnbody"]
 
 CFG_TEMPLATE = """SPECIFICATION HSpec
 CONSTANTS
+  RICH = FALSE
+  MINNODES = 0
+  MAXSTACK = 99
   BUDGET = 0
   FUEL = 3000
   MAXINT = 100000
